@@ -1,1 +1,12 @@
 import SwcVerif.Props.C15
+#print axioms C15.convert_faithful
+#print axioms C15.rows_count
+#print axioms C15.trailing_ignored
+#print axioms C15.comment_skipped
+#print axioms C15.color_skipped
+#print axioms C15.leading_comment_skipped
+#print axioms C15.bad_point_rejected
+#print axioms C15.node_error_propagates
+#print axioms C15.truncation_rejected_partial
+#print axioms C15.lex_skips_blanks
+#print axioms C15.lex_structural
